@@ -61,8 +61,8 @@ class SpecBuiltins:
             consts.append(c)
             nfr.env[n] = SV(ty, c)
             if isinstance(ty, TObj):
-                # quantification over references ranges over allocated instances of the class
-                guards.append(z3.Select(it.alive, c))
+                # quantification over references ranges over the instances of the class (no
+                # aliveness guard: aliveness is state dependent and is not asserted under binders)
                 subs = it.w.subclasses(ty.cls)
                 guards.append(z3.Or([it.cls_of(c) == it.cls_id(s) for s in subs]))
         # wf facts about terms under the binder become guards of the quantifier body
@@ -394,6 +394,14 @@ class SpecBuiltins:
         x = it.bound("ax", ty.sort())
         it.assume(z3.ForAll([x], proj(inj(x)) == x))
         return SV(ty, proj(v.term))
+
+    def s_assume(self, it, node, fr):
+        """assume(cond): hypothesis of a code lemma (e.g. the induction hypothesis for constituents)."""
+        pfr = self._pure(fr)
+        for a in node.args:
+            it.assume(it.truthy(it.eval(a, pfr), pfr))
+        it.notes.add("code lemma hypothesis assumed (assume(...))")
+        return NONE
 
     def s_result(self, it, node, fr):
         raise Unsupported("result is a name, not a call")
